@@ -86,6 +86,9 @@ def zoo():
   z.append(_mergeable('Var', rs.Var, r1, lambda a: _norm(a.result())))
   r2 = [([1.0, nan],), ([3.0, nan],), ([5.0, 2.0],), ([7.0, 4.0],), ([nan, 6.0],)]
   z.append(_mergeable('MeanAndVariance-2d-nan-columns', rs.MeanAndVariance, r2, lambda a: _norm([a.count, a.mean, a.var])))
+  r3 = [([1.0, nan, 2.0],), ([3.0, 4.0, nan],), ([nan, 6.0, 8.0],), ([7.0, nan, nan],), ([9.0, 10.0, 11.0],)]
+  z.append(_mergeable('Mean-2d-uneven-nan', rs.Mean, r3, lambda a: _norm([a.count, a.result()])))
+  z.append(_mergeable('Var-2d-uneven-nan', rs.Var, r3, lambda a: _norm(a.result())))
   z.append(_mergeable('MinMaxAndCount', rs.MinMaxAndCount, [(3,), (1,), (2,), (9,), (4,)],
                       lambda a: _norm([a.result().min, a.result().max, a.result().count]) if a.result().count else None))
   yb = [(1, 0.9), (0, 0.2), (1, 0.6), (0, 0.4), (1, 0.7), (0, 0.1)]
@@ -108,6 +111,10 @@ def zoo():
   texts = [('a b a c',), ('b b d',), ('a c',), ('d a b',)]
   z.append(_mergeable('TopKWordNGrams', lambda: tx.TopKWordNGrams(k=3, n=1), texts, lambda a: _norm(a.result()), as_array=False))
   z.append(_mergeable('PatternFrequency', lambda: tx.PatternFrequency(patterns=['a', 'd']), texts, lambda a: _norm(a.result()), as_array=False))
+  shared = [('the cat sat',), ('the cat ran',), ('a dog sat',), ('the cat sat',), ('a dog ran',)]
+  for cd in (True, False):
+    z.append(_mergeable(f'TopKWordNGrams-2gram-count_duplicate={cd}', lambda cd=cd: tx.TopKWordNGrams(k=4, n=2, count_duplicate=cd), shared, lambda a: _norm(a.result()), as_array=False))
+    z.append(_mergeable(f'PatternFrequency-count_duplicate={cd}', lambda cd=cd: tx.PatternFrequency(patterns=['cat', 'sat', 'dog'], count_duplicate=cd), shared, lambda a: _norm(a.result()), as_array=False))
   yl = [(0.1, 0.2), (0.8, 0.9), (0.4, 0.3), (0.6, 0.7)]
   z.append(_mergeable('CalibrationHistogram', lambda: mcl.CalibrationHistogram(bins=4), yl, lambda a: _norm(a.result())))
   # classification
